@@ -63,6 +63,14 @@ def monitor(case):
     hostile = case.get('hostile')
     if any(e.get('crash') for e in ev):
         return None if hostile else 'the translator panicked on protocol-respecting traffic'
+    # -- sleep safety (at_no_progress_stays): the engine stops ticking after a tick without progress, so a
+    #    tick that reports progress directly after one that reported none (no delivery or retrieval in
+    #    between) means the first one changed state without saying so
+    for i in range(len(ev) - 1):
+        if (ev[i]['e'] == 'tick' and ev[i + 1]['e'] == 'tick' and ev[i].get('progress') is False
+                and ev[i + 1].get('progress') is True):
+            return ('changed state without reporting progress: tick %d reported no progress, the very next tick '
+                    '(event %d, nothing in between) reported progress' % (i, i + 1))
     page = lambda a: (a >> k) << k
     deliv = []      # (index, msg) of accepted top requests
     lookups = {}    # canonical lookup id -> (index, treq)
@@ -356,6 +364,19 @@ def main(argv):
         'ticks_with_reply_waiting_and_bottom_port_full': sum(s['blocked'] for s in sts),
         'translation_replies_out_of_order': sum(s['ooo_tr'] for s in sts),
         'memory_responses_out_of_order': sum(s['ooo_bot'] for s in sts),
+        'consecutive_tick_pairs': sum(1 for c in cases for i in range(len(c['events']) - 1)
+                                      if c['events'][i]['e'] == 'tick' and c['events'][i + 1]['e'] == 'tick'),
+        'tick_pairs_first_without_progress': sum(1 for c in cases for i in range(len(c['events']) - 1)
+                                                 if c['events'][i]['e'] == 'tick' and c['events'][i + 1]['e'] == 'tick'
+                                                 and c['events'][i].get('progress') is False),
+        'tick_pairs_no_progress_with_pending_input': sum(
+            1 for c in cases for i in range(len(c['events']) - 1)
+            if c['events'][i]['e'] == 'tick' and c['events'][i + 1]['e'] == 'tick'
+            and c['events'][i].get('progress') is False and c['events'][i].get('pending')),
+        'tick_pairs_after_refused_forward_of_a_reply': sum(
+            1 for c in cases for i in range(len(c['events']) - 1)
+            if c['events'][i]['e'] == 'tick' and c['events'][i + 1]['e'] == 'tick'
+            and c['events'][i].get('progress') is False and c['events'][i].get('blocked')),
         'drained_cases': sum(1 for c in cases if c.get('drained')),
         'quiet_rule_all_requests': sum(1 for c in cases if c.get('_scope') == 'all'),
         'quiet_rule_after_restart': sum(1 for c in cases if c.get('_scope') == 'after-restart'),
